@@ -39,10 +39,10 @@ BASE = dict(
     ns=[(2, 5), (3, 4), (4, 1)], decimal_prob=0,
     obj_kinds=[("quad", 5), ("lin", 2), ("rosen", 1), ("abs", 1)],
     max_lin=2, max_nl=2, faults=0, maxfev=(8, 45), opt_prob=20, callback_prob=0, scale_prob=0,
-    infeasible_prob=15, debug_prob=0, nl_forms=[("NC", 1)],
+    infeasible_prob=15, debug_prob=0, nl_forms=[("NC", 1)], dict_family=0,
     limit_pats=[("le", 4), ("ge", 3), ("two", 4), ("eq", 2), ("free", 1)],
 )
-KINDS = ["fixed", "array", "dict", "split", "splitlin", "merge", "order", "scale", "lin", "sharefun"]
+KINDS = ["fixed", "array", "dict", "split", "splitlin", "merge", "order", "scale", "lin", "sharefun", "forms"]
 
 
 def budget(tier):
@@ -96,8 +96,19 @@ def strategy_c10(draw):
         prof["max_lin"] = 3
         prof["scale_prob"] = 50
         prof["limit_pats"] = [("le", 3), ("ge", 3), ("two", 4), ("eq", 3), ("free", 1), ("nanl", 1), ("nanu", 1)]
+    if kind == "forms":
+        prof["max_lin"] = 3
+        prof["bound_pats"] = [("free", 2), ("lower", 2), ("upper", 1), ("two", 4), ("fixed", 1)]
     base = draw(S.problems(prof))
-    return {"kind": kind, "base": base, "probe": [draw(st.integers(-64, 64)) for _ in range(12)]}
+    out = {"kind": kind, "base": base, "probe": [draw(st.integers(-64, 64)) for _ in range(12)]}
+    if kind == "forms":
+        # the same data handed over in other array-like forms (sequences, integer / single-precision arrays,
+        # a 1-D coefficient array for a single row, Bounds built from lists or with keep_feasible)
+        out["forms"] = {"x0": draw(st.sampled_from(["tuple", "int", "f32", "array", "list"])),
+                        "bounds": draw(st.sampled_from(["pairs", "lists", "Bounds_kf", "Bounds_list", "array"])),
+                        "A": [draw(st.sampled_from(["list", "int", "1d", "float"])) for _ in range(3)],
+                        "limits": [draw(st.sampled_from(["list", "array"])) for _ in range(3)]}
+    return out
 
 
 def strategy(tier):
@@ -108,7 +119,7 @@ def strategy(tier):
 # restatements: base spec -> (spec_a, spec_b, changed?)
 
 
-def restate(kind, base):
+def restate(kind, base, forms=None):
     base = copy.deepcopy(base)
     # normalise the call order first: linear objects 0.., nonlinear objects 50..
     lin = sorted(range(len(base["lin"])), key=lambda i: (base["lin"][i].get("pos", 0), i))
@@ -126,6 +137,16 @@ def restate(kind, base):
     ub = np.array(a["ub"], float)
     if kind == "array":
         a["bounds_form"], b["bounds_form"] = "Bounds", "array"
+        return a, b, True
+    if kind == "forms":
+        a["bounds_form"], a["x0_form"] = "Bounds", "array"
+        for L in a["lin"]:
+            L.pop("A_form", None)
+            L.pop("limits_form", None)
+        b["bounds_form"], b["x0_form"] = forms["bounds"], forms["x0"]
+        for i, L in enumerate(b["lin"]):
+            L["A_form"] = forms["A"][i % 3]
+            L["limits_form"] = forms["limits"][i % 3]
         return a, b, True
     if kind == "dict":
         changed = False
@@ -399,7 +420,7 @@ def run_case(spec):
         lin_clause(spec, out)
         return out
     base = dec(copy.deepcopy(spec["base"]))
-    sa, sb, changed = restate(kind, base)
+    sa, sb, changed = restate(kind, base, spec.get("forms"))
     if not changed:
         out.label("unchanged:" + kind)
         return out
